@@ -20,6 +20,7 @@ mod c09;
 mod c10;
 mod c07;
 mod c17;
+mod c12;
 
 fn main() {
     let args: Vec<String> = std::env::args().collect();
@@ -46,6 +47,7 @@ fn main() {
         "c10" => c10::main(rest),
         "c07" => c07::main(rest),
         "c17" => c17::main(rest),
+        "c12" => c12::main(rest),
         other => {
             eprintln!("unknown property {other}");
             std::process::exit(2);
